@@ -23,6 +23,7 @@ type CV struct {
 	// conditional between two untyped constants: sort chosen by the context
 	CondC        Term
 	CondA, CondB *big.Int
+	Lazy         bool // a variable living in memory: (re)loaded from the state the expression is evaluated in
 }
 
 type CEnv struct {
@@ -70,7 +71,7 @@ func (x *Exec) contractEnv(fr *Frame, st *State) *CEnv {
 			if pt, ok := p.Type().Underlying().(*types.Pointer); ok {
 				loc := x.locOfCV(cv, pt.Elem())
 				if loc != nil {
-					env.vars[p.Name()] = &CV{T: x.load(st, loc), Ty: pt.Elem()}
+					env.vars[p.Name()] = &CV{T: x.load(st, loc), Ty: pt.Elem(), Addr: loc, Lazy: true}
 				}
 			}
 		}
@@ -84,7 +85,7 @@ func (x *Exec) contractEnv(fr *Frame, st *State) *CEnv {
 			continue
 		}
 		if v.Loc != nil {
-			env.vars[name] = &CV{T: x.load(st, v.Loc), Ty: v.Loc.T, Addr: v.Loc}
+			env.vars[name] = &CV{T: x.load(st, v.Loc), Ty: v.Loc.T, Addr: v.Loc, Lazy: true}
 		}
 	}
 	// plain SSA values that carry a source name (single assignment), via DebugRef
@@ -220,6 +221,9 @@ func (x *Exec) eval(env *CEnv, e CExpr) (*CV, error) {
 		return &CV{IsNil: true}, nil
 	case *CIdent:
 		if v, ok := env.vars[n.Name]; ok {
+			if v.Lazy && v.Addr != nil && (v.Addr.Kind != LCell || hasCell(env.st, v.Addr)) {
+				return &CV{T: x.load(env.st, v.Addr), Ty: v.Ty, Addr: v.Addr, Lazy: true}, nil
+			}
 			return v, nil
 		}
 		if g, ok := env.st.ghost[n.Name]; ok {
@@ -1345,3 +1349,8 @@ func partName(name string, i, n int) string {
 
 // sorts that have no Go type: mathematical integers and the ghost database arrays
 var pseudoSorts = map[string]Sort{"mathint": SInt, "curset": sCur, "rowmap": sRows, "hashmap": sHash, "hashv": "HashV"}
+
+func hasCell(st *State, l *Loc) bool {
+	_, ok := st.cells[l.Cell]
+	return ok
+}
